@@ -1691,6 +1691,82 @@ fn deep_threads_run(dets: &[Det], files: &[&str], nthreads: usize, seed: u64) ->
     })
 }
 
+/// Two texts of EQUAL byte length with different line structure before their findings: A gets 3 blank lines in
+/// front and no trailing newline, B no leading and 3 trailing newlines; the shorter one is padded at the very end
+/// (spaces, or a `//ppp` comment) so that only the tail differs.
+fn equal_length_pair(p: &str, q: &str, comment_pad: bool) -> (String, String) {
+    let mut a = format!("\n\n\n{}", p.trim_end());
+    let mut b = format!("{}\n\n\n", q.trim_end());
+    let pad = |s: &mut String, k: usize| {
+        if comment_pad && k >= 2 {
+            s.push_str("//");
+            s.push_str(&"p".repeat(k - 2));
+        } else {
+            s.push_str(&" ".repeat(k));
+        }
+    };
+    if a.len() < b.len() {
+        let k = b.len() - a.len();
+        pad(&mut a, k);
+    } else if b.len() < a.len() {
+        let k = a.len() - b.len();
+        pad(&mut b, k);
+    }
+    (a, b)
+}
+
+/// Analyse every pattern on a sequence of texts that all live, one after the other, in ONE String buffer
+/// (same allocation, same pointer, equal lengths). Returns None if the buffer moved (cannot happen with the
+/// capacity reserved up front; checked all the same), else per step the results of all patterns.
+fn same_buffer_run(dets: &[Det], seq: &[&str]) -> Option<Vec<Vec<Lines>>> {
+    let cap = seq.iter().map(|s| s.len()).max().unwrap_or(0) + 64;
+    let mut buf = String::with_capacity(cap);
+    buf.push_str(seq[0]);
+    let ptr0 = buf.as_ptr();
+    let mut out = vec![];
+    for (i, text) in seq.iter().enumerate() {
+        if i > 0 {
+            buf.clear();
+            buf.push_str(text);
+        }
+        if buf.as_ptr() != ptr0 {
+            return None;
+        }
+        out.push(dets.iter().map(|d| analyze(d, buf.as_str(), 0)).collect());
+    }
+    Some(out)
+}
+
+/// the three orders of the same-buffer stage: (label, sequence of 0 = A / 1 = B)
+const SAME_BUFFER_ORDERS: [(&str, &[usize]); 3] = [("A,B", &[0, 1]), ("B,A", &[1, 0]), ("A,B,A", &[0, 1, 0])];
+
+/// Returns the mismatches of one pair: (order label, step, which text, detector index, got)
+fn same_buffer_pair(dets: &[Det], a: &str, b: &str, refs: &[Vec<Lines>; 2], evals: &mut u64, moved: &mut u64) -> Vec<(&'static str, usize, usize, usize, Lines)> {
+    let texts = [a, b];
+    let mut bad = vec![];
+    for (label, order) in SAME_BUFFER_ORDERS {
+        let seq: Vec<&str> = order.iter().map(|w| texts[*w]).collect();
+        match same_buffer_run(dets, &seq) {
+            None => *moved += 1,
+            Some(res) => {
+                for (step, per_det) in res.into_iter().enumerate() {
+                    let w = order[step];
+                    for (di, g) in per_det.into_iter().enumerate() {
+                        if refs[w][di].is_err() {
+                            continue;
+                        }
+                        *evals += 1;
+                        if !same(&g, &refs[w][di]) {
+                            bad.push((label, step, w, di, g));
+                        }
+                    }
+                }
+            }
+        }
+    }
+    bad
+}
+
 pub fn run_c15(tier: &str, seed: u64) -> CheckResult {
     silence();
     let thorough = tier == "thorough";
@@ -1906,12 +1982,79 @@ pub fn run_c15(tier: &str, seed: u64) -> CheckResult {
             ("optimal_comparison_lines", J::s(det_by_name(&dets, "optimal_comparison").map(|i| fmt_lines(&deep_refs[0][i])).unwrap_or_default())),
         ]));
     }
+    // (ii') same-buffer history: two different files of equal byte length analysed one after the other from the
+    // SAME memory (one String buffer, pointer asserted unchanged), in one thread, through all three analyze_for_*
+    let mut sb_pairs = 0u64;
+    let mut sb_cmp = 0u64;
+    let mut sb_moved = 0u64;
+    {
+        let usable: Vec<&Prog> = progs.iter().zip(baselines.iter()).filter(|(_, b)| b.is_some()).map(|(p, _)| p).collect();
+        let mut pairs: Vec<(String, String, String)> = vec![];
+        let step = if thorough { 1 } else { 3 };
+        let mut i = 0;
+        while i < usable.len() {
+            // the same program in two line layouts of equal length, and two different programs padded to equal length
+            let (a, b) = equal_length_pair(&usable[i].src, &usable[i].src, false);
+            pairs.push((format!("{} / {}", usable[i].tag, usable[i].tag), a, b));
+            if i + 1 < usable.len() {
+                let (a, b) = equal_length_pair(&usable[i].src, &usable[i + 1].src, i % 2 == 0);
+                pairs.push((format!("{} / {}", usable[i].tag, usable[i + 1].tag), a, b));
+            }
+            i += step;
+        }
+        for (tag, a, b) in &pairs {
+            if a.len() != b.len() || a == b || solang_parser::parse(a, 0).is_err() || solang_parser::parse(b, 0).is_err() {
+                continue;
+            }
+            // single-shot references, each text in its own allocation (both alive: the pointers differ)
+            let refs: [Vec<Lines>; 2] = [dets.iter().map(|d| analyze(d, a, 0)).collect(), dets.iter().map(|d| analyze(d, b, 0)).collect()];
+            sb_pairs += 1;
+            for (di, d) in dets.iter().enumerate() {
+                if let (Ok(x), Ok(y)) = (&refs[0][di], &refs[1][di]) {
+                    if x != y && (!x.is_empty() || !y.is_empty()) {
+                        r.nontrivial.insert(format!("same-buffer|{}|{}", tag, d.name));
+                    }
+                }
+            }
+            let mut ev = 0u64;
+            let bad = same_buffer_pair(&dets, a, b, &refs, &mut ev, &mut sb_moved);
+            r.evaluations += ev;
+            sb_cmp += ev;
+            if let Some((label, step, w, di, g)) = bad.first() {
+                let mut names: Vec<&str> = vec![];
+                for (_, _, _, dj, _) in &bad {
+                    if !names.contains(&dets[*dj].name) {
+                        names.push(dets[*dj].name);
+                    }
+                }
+                r.violate(
+                    "c15:depends-on-history:same-buffer-equal-length",
+                    &format!(
+                        "programs {}: two different texts of equal byte length ({} bytes) analysed one after the other from the same String buffer (same pointer): {} detector(s) report other lines than on a single-shot analysis of the same text: {}; first: {} in order {} at step {} (text {})",
+                        tag,
+                        a.len(),
+                        names.len(),
+                        names.join(", "),
+                        dets[*di].name,
+                        label,
+                        step + 1,
+                        if *w == 0 { "A" } else { "B" }
+                    ),
+                    vec!["c15-case".into(), "same-buffer".into(), format!("@src:{}", a), dets[*di].name.to_string(), format!("@src:{}", b)],
+                    fmt_lines(&refs[*w][*di]),
+                    fmt_lines(g),
+                );
+            }
+        }
+    }
     collapse(&mut r, mis);
     r.rule = format!(
         "reference = first evaluation of (file content, pattern) in this process through analyze_for_*; a case is one comparison of another evaluation of the same (content, pattern) with the reference: \
 repeated twice more; file_number in {:?}; after the 29 other patterns in a seeded permuted order (every pattern is the target once per program and round, and every intermediate result is compared too); \
 from {} threads released together, each running all 30 patterns in its own permutation, interleaved with calls on a different file; \
 {} deeply nested files (nesting depth 40..60, findings at the innermost level and after the nest) analysed by 24 and by 32 threads released together, each thread walking all files (rotated start, so the same and different files are analysed simultaneously) with all 30 patterns in its own permutation; \
+pairs (A, B) of different texts of EQUAL byte length and different line structure (A: 3 leading blank lines, no trailing newline; B: 3 trailing newlines; end padded with spaces or a comment) analysed in one thread \
+one after the other from the SAME String buffer (pointer checked unchanged) in the orders A,B / B,A / A,B,A with all 30 patterns (all three analyze_for_* entry points) against single-shot references; \
 and (sampled programs) as the only call of a fresh process. when more than 3 detectors differ on one program for one kind of context, one `many-detectors` key is reported. \
 non-trivial iff the reference reports at least one line. THREAD INTERLEAVINGS ARE SAMPLED BY THE OS SCHEDULER, NOT EXPLORED SYSTEMATICALLY.",
         FILE_NUMBERS,
@@ -1919,7 +2062,7 @@ non-trivial iff the reference reports at least one line. THREAD INTERLEAVINGS AR
         deep.len()
     );
     r.bound = format!(
-        "{} generated programs x 30 patterns; {} history round(s); {} deep programs x {{24, 32}} threads x {} rounds; comparisons: repeat {}, file_number {}, history {}, threads {}, fresh process {}, deep threads {}",
+        "{} generated programs x 30 patterns; {} history round(s); {} deep programs x {{24, 32}} threads x {} rounds; comparisons: repeat {}, file_number {}, history {}, threads {}, fresh process {}, deep threads {}, same-buffer {} ({} equal-length pairs x 3 orders)",
         progs.len(),
         rounds,
         deep.len(),
@@ -1929,8 +2072,11 @@ non-trivial iff the reference reports at least one line. THREAD INTERLEAVINGS AR
         counts[2],
         counts[3],
         counts[4],
-        deep_cmp
+        deep_cmp,
+        sb_cmp,
+        sb_pairs
     );
+    r.extra.push(("same_buffer_moved".into(), J::Num(sb_moved as i64)));
     r.extra.push(("skipped_panics".into(), J::Num(skipped_panics as i64)));
     r.extra.push(("fresh_process_unavailable".into(), J::Num(fresh_unavailable as i64)));
     r.extra.push(("parse_failures".into(), J::arr_s(parse_fail)));
@@ -1943,7 +2089,7 @@ non-trivial iff the reference reports at least one line. THREAD INTERLEAVINGS AR
 fn c15_replay(rest: &[String]) -> i32 {
     silence();
     if rest.len() < 3 {
-        eprintln!("usage: c15-case repeat|file-number|history|threads|deep-threads|fresh <source> <detector> [seed] [target|nthreads]");
+        eprintln!("usage: c15-case repeat|file-number|history|threads|deep-threads|same-buffer|fresh <source> <detector> [seed|text B] [target|nthreads]");
         return 2;
     }
     let src = crate::arg_or_file(&rest[1]);
@@ -2003,6 +2149,37 @@ fn c15_replay(rest: &[String]) -> i32 {
                     }
                 }
             }
+        }
+        "same-buffer" => {
+            // rest[3] = text B (same byte length as the source A); exit 1 iff some step differs from its single-shot reference
+            let b = match rest.get(3) {
+                Some(x) => crate::arg_or_file(x),
+                None => {
+                    eprintln!("usage: c15-case same-buffer <text A> <detector> <text B>");
+                    return 2;
+                }
+            };
+            if b.len() != src.len() || solang_parser::parse(&b, 0).is_err() {
+                println!("not applicable: B must parse and have the same byte length as A ({} vs {})", b.len(), src.len());
+                return 0;
+            }
+            let one = [dets[di]];
+            let refs: [Vec<Lines>; 2] = [vec![base.clone()], vec![analyze(&dets[di], &b, 0)]];
+            let (mut ev, mut moved) = (0u64, 0u64);
+            let bad = same_buffer_pair(&one, &src, &b, &refs, &mut ev, &mut moved);
+            println!("single-shot: A {} B {}", fmt_lines(&refs[0][0]), fmt_lines(&refs[1][0]));
+            if moved > 0 {
+                println!("the buffer moved; not applicable");
+                return 2;
+            }
+            for (label, step, w, _, g) in &bad {
+                println!("VIOLATED: order {} step {} (text {}) from the same buffer gives {}", label, step + 1, if *w == 0 { "A" } else { "B" }, fmt_lines(g));
+            }
+            if bad.is_empty() {
+                println!("holds: every text analysed from the shared buffer gives its single-shot lines");
+                return 0;
+            }
+            return 1;
         }
         "fresh" => {
             for d in &dets {
